@@ -189,8 +189,24 @@ func runC02(r *mon.Run) {
 		if i%3 == 0 {
 			u = gen.Pick(rng, uint64(0), 1, 1<<63, ^uint64(0), 0xBFD25E8CD0364141, 0xBFD25E8CD0364140)
 		}
-		if got, bad := api.val(secp256k1.NewScalarFromUint64(u)); bad != "" || got.Cmp(new(big.Int).SetUint64(u)) != 0 {
+		if i%3 == 1 {
+			u = uint64(rng.Intn(300)) // small constants (the ones a constructor might intern)
+		}
+		c1 := secp256k1.NewScalarFromUint64(u)
+		if got, bad := api.val(c1); bad != "" || got.Cmp(new(big.Int).SetUint64(u)) != 0 {
 			w.Fail("n/NewScalarFromUint64", fmt.Sprintf("NewScalarFromUint64(%#x) = %x %s", u, got, bad), "u", u)
+		}
+		// the caller owns what a constructor returns: use it as a receiver, then construct again
+		c1.Add(c1, secp256k1.NewScalarFromUint64(0x1234567)).Multiply(c1, c1)
+		secp256k1.NewScalar().Invert(c1)
+		if got, bad := api.val(secp256k1.NewScalarFromUint64(u)); bad != "" || got.Cmp(new(big.Int).SetUint64(u)) != 0 {
+			w.Fail("n/NewScalarFromUint64:shared", fmt.Sprintf("NewScalarFromUint64(%#x) = %x %s after an earlier result of the same call was used as a receiver (the constructor hands out shared objects)", u, got, bad), "u", u)
+		}
+		if z, o := secp256k1.NewScalar(), secp256k1.NewScalar().One(); z.IsZero() != 1 || bigFromScalar(o).Cmp(big.NewInt(1)) != 0 {
+			w.Fail("n/NewScalar:shared", "NewScalar() is not zero / One() is not one after earlier results were mutated")
+		} else {
+			z.Add(z, o)
+			o.Add(o, o)
 		}
 		src, cls := rng.Bytes32Any(m)
 		var arr [32]byte
